@@ -71,9 +71,9 @@ import Pog.Lemmas.AliasCover
 -- INDEX Pog.DcProps: rendered_defaults_last, render_order_defaults_last, render_order_is_identity, field_line_shape, generate_never_diverges, generate_value_error_iff, generate_default_factory_counterexample, generate_ok_partial, enum_default_member_counterexample, enum_default_expr_by_value, default_enum_expr, default_enum_str_expr, enum_default_member_exact, enum_default_member_partial, enum_default_member_in_enum_partial, enum_default_wrong_member_counterexample, int_enum_default_never_identifier
 /-
   C01, mocks/mock_client.py (Pog/Model/ClientGen.lean; claimed from Pog/Props/ClientGen.lean):
-    mock_init_body_empty_iff_no_tags       the `__init__` body of MockAPIClient is empty - a SyntaxError - iff the document has no operation (F31)
+    mock_init_body_never_empty             the `__init__` body of MockAPIClient is never empty (F31 repaired: `pass` for a document without operations)
 -/
--- INDEX Pog.ClientGenProps: mock_init_body_empty_iff_no_tags, mock_client_syntax_error_when_no_operation
+-- INDEX Pog.ClientGenProps: mock_init_body_never_empty, mock_client_compiles_when_no_operation
 namespace Pog.C01
 open Pog Pog.Imp Pog.Annot Pog.AliasCover
 
